@@ -65,6 +65,11 @@ def gen_cases(tier, seed):
                 piece = w[a:a + r.randrange(2, 4)]
                 if len(piece) >= 2:
                     items.append(["w", piece.lower()])
+        if nt and r.random() < 0.15:
+            # a plain word that is character for character the body of one of the text's own hashtags ('gym ... #gym')
+            plain = [x for k, x in items if k == "h" and "-" not in x]
+            if plain:
+                items.append(["w", r.choice(plain)])
         if nt and r.random() < 0.2:
             # the same hashtag written again (once or twice): each occurrence is a label, at its own place
             for _ in range(r.choice((1, 1, 2))):
@@ -138,7 +143,10 @@ def run_case(case, ctx):
     # B. hashtags never in the subject
     for name, r in (("full", r_full), ("no-expression", r_noe)):
         sw = r.subject.split()
-        if "#" in r.subject or any(t in sw for t in tags):
+        # (a plain word that happens to equal a hashtag's body is a word, not the hashtag: it may be there as often as the
+        # label-free text has it)
+        plain = [x for w in clean[id(r)].split() for x in re.split(r"-+", w) if x]
+        if "#" in r.subject or any(sw.count(t) > plain.count(t) for t in tags):
             probs.append(("hashtag-in-subject/" + name, "%s: subject %r contains a hashtag of %r" % (name, r.subject, tags)))
     # C. hashtags change neither resolution nor the rest of the subject
     if C.resv(r_full) != C.resv(r_not):
